@@ -43,7 +43,6 @@ pub fn is_documented_refusal(msg: &str) -> bool {
         "has too high degree",    // gate degree above the quotient degree factor
         "When the number of routed wires is smaller that the degree",
         "Not enough routed wires",
-        "attempt to subtract with overflow", // arity sum above degree bits in Fixed strategies (checked build)
         "cap_height=",
         "should be at most",
         "No gates?",
@@ -55,11 +54,46 @@ pub fn is_documented_refusal(msg: &str) -> bool {
     .any(|m| msg.contains(m))
 }
 
-/// With zero knowledge on, a reduction strategy that leaves the final polynomial (nearly) as long
-/// as the trace makes blinding impossible; the builder's degree search then diverges until its
-/// arithmetic overflows. The configuration is inadmissible; the way it is refused is recorded.
-pub fn is_zk_blinding_divergence(msg: &str, loc: &str, zk: bool) -> bool {
-    zk && loc.contains("circuit_builder.rs") && (msg.contains("attempt to multiply with overflow") || msg.contains("Not a power of two: 0"))
+/// Shape of the panic with which the builder's blinding-degree search (`blinding_counts`) ends when
+/// it never finds a degree that fits: the estimate doubles until its arithmetic overflows (checked
+/// build) or wraps to zero (plain release).
+fn is_degree_search_overflow(msg: &str, loc: &str) -> bool {
+    loc.contains("plonk/circuit_builder.rs")
+        && (msg.contains("attempt to multiply with overflow") || msg.contains("attempt to add with overflow") || msg.contains("Not a power of two: 0"))
+}
+
+/// Independent (harness-side, u128) decision that zero-knowledge blinding cannot fit at *any* trace
+/// length under a `Fixed` reduction strategy, whose arity list does not depend on the degree: every
+/// query opens `1 + D*sum(arity-1) + D*final_poly_len` values of each polynomial, a regular
+/// polynomial needs one blinding row per opened value (+D for zeta), a Z polynomial two rows per
+/// opened value (+2D for zeta, g*zeta); with `final_poly_len = 2^k / prod(arities)` the demand grows
+/// as fast as the degree when `3*D*queries >= prod(arities)`. Such a configuration is inadmissible
+/// (the property quantifies over admissible ones); the builder refuses it by running its degree
+/// search until the arithmetic overflows. Returns None for strategies this closed form does not cover.
+pub fn zk_blinding_infeasible(config: &CircuitConfig) -> Option<bool> {
+    use plonky2::fri::reduction_strategies::FriReductionStrategy;
+    if !config.zero_knowledge {
+        return None;
+    }
+    let arities = match &config.fri_config.reduction_strategy {
+        FriReductionStrategy::Fixed(a) => a.clone(),
+        _ => return None,
+    };
+    let d = D as u128;
+    let q = config.fri_config.num_query_rounds as u128;
+    let total_bits: usize = arities.iter().sum();
+    let folding_points: u128 = arities.iter().map(|a| (1u128 << a) - 1).sum();
+    for k in 0..64usize {
+        let degree = 1u128 << k;
+        let final_poly_coeffs = if total_bits > k { 0 } else { degree >> total_bits };
+        let fri_openings = q * (1 + d * folding_points + d * final_poly_coeffs);
+        let regular = d + fri_openings;
+        let z = 2 * d + fri_openings;
+        if regular + 2 * z <= degree {
+            return Some(false); // fits an empty circuit at 2^k rows, so it fits any circuit at some larger degree
+        }
+    }
+    Some(true)
 }
 
 pub fn run_case<C: GenericConfig<D, F = F>>(seed: u64, case: u64, quick: bool, hname: &str) -> CaseOut {
@@ -90,8 +124,8 @@ pub fn run_case<C: GenericConfig<D, F = F>>(seed: u64, case: u64, quick: bool, h
         Err(p) => {
             if is_documented_refusal(&p.msg) {
                 out.refused = Some(msg_class(&p.msg));
-            } else if is_zk_blinding_divergence(&p.msg, &p.loc, config.zero_knowledge) {
-                out.refused = Some("zk blinding cannot fit: degree search diverged (arithmetic overflow)".into());
+            } else if is_degree_search_overflow(&p.msg, &p.loc) && zk_blinding_infeasible(&config) == Some(true) {
+                out.refused = Some("zk blinding cannot fit at any degree (Fixed strategy, confirmed by the harness): degree search diverged".into());
             } else {
                 out.fails.push((format!("build.panic@{}:{}", norm_loc(&p.loc), msg_class(&p.msg)), json!({"ctx": ctx, "panic": p.msg, "loc": p.loc})));
             }
@@ -239,6 +273,7 @@ pub fn run(tier: Tier) -> ! {
     run.rule("case = seeded straight-line program over the built-in gadgets (1..700 ops; arithmetic, extension arithmetic, bit/limb splits, range checks, selection, random access, exponentiation, hashing, reductions, lookups) + designated satisfying input + boundary-biased alternative inputs that the interpreter classifies as satisfying + configuration (55% cheap standard layout, 45% sampled from the admissible lattice: zk, strategy, rate 3..5, quotient factor 7..16, cap height 0..4, 1..3 challenges, 135..234 wires, 40..135 routed) x {Poseidon, Keccak}. Oracles: every register of the generated witness equals the direct interpreter; proving succeeds; CircuitData::verify, a separately built VerifierCircuitData and compress+verify_compressed accept; proof public inputs equal the interpreter. distinct = distinct (program size, degree bits, configuration).");
     run.assume("interpreter (circ.rs over refmodel u128 arithmetic, textbook Poseidon) is the specification of the gadget semantics");
     run.assume("configurations the builder refuses with one of its documented assertions are outside the admissible set and are counted, not judged");
+    run.assume("admissible = accepted by CircuitBuilder::build; the only other refusal that is not judged is zero knowledge with a Fixed reduction strategy whose blinding demand grows as fast as the trace (decided by the harness's own closed form, not by the panic text alone)");
     let quick = run.quick();
     let n_cases: u64 = run.pick(600, 12000);
     let seed = run.seed;
